@@ -25,8 +25,11 @@ LEVEL_NOTE = ("Relative to C03: ScalarBaseMult / ScalarMult / IsOnCurve are the 
               "is premise-free. encoding/asn1, math/big and SM3 are modelled (SM3 by SM3Spec), tied by the differential run; the ASN.1 round trip is "
               "proved for plaintexts below 65000 bytes. DecryptAsn1 accepts trailing bytes after / extra fields inside the SEQUENCE (encoding/asn1 "
               "laxness, outside the property's quantifier; modelled faithfully). Decrypt returns the unauthenticated bytes together with the error "
-              "on a C3 mismatch; the projection is 'error'. 'made for a different key' is covered by the characterisation (C3 must equal the hash "
-              "under the receiver's own [d]C1), not by a probability statement.")
+              "on a C3 mismatch; the projection is 'error'. 'made for a different key': theorem C02_other_key_rejected_or_collision - a ciphertext for [d]G that another key d' decrypts "
+              "without error exhibits SM3(x2'||M'||y2') = SM3(x2||M||y2) with [d']C1 <> [d]C1 and different input strings (an explicit collision), not a probability "
+              "statement. Round trip: minimal premises p prime, associativity, [k]G finite (the _min theorems); associativity itself is proved (SM2/ECAssoc.v), so the "
+              "_noassoc theorems need p prime and [k]G finite only. Layout constants (prefix 04, 32-byte padding, offsets, minimal length) are read from the source "
+              "by the translator and compared in C02_source_layout_tied.")
 TRUSTED_BASE = [
     "model coq/SM2/SM2Model.v, coq/SM2/DER.v written by hand from sm2/sm2.go and encoding/asn1; tied by the correspondence run of this check",
     "specification coq/SM2/SM2Spec.v typed from GM/T 0003.4 over EC/SM2Curve.v and SM3/SM3Spec.v; the python oracle reproduces the GM/T 0003.5 encryption example",
